@@ -11,6 +11,21 @@ import logging
 logging.disable(logging.CRITICAL)
 import warnings
 
+
+
+def declared(text):
+    """the encoding a document's XML declaration names (bytes and files hold the document in it), else UTF-8"""
+    import re
+    m = re.match(r'''<\?xml[^>]*encoding=["']([^"']+)''', text)
+    try:
+        if m:
+            text.encode(m.group(1))
+            return m.group(1)
+    except (LookupError, UnicodeEncodeError):
+        pass
+    return 'utf-8'
+
+
 out = []
 if req['mode'] == 'classify':
     from mosromgr.mostypes import MosFile
@@ -22,11 +37,11 @@ if req['mode'] == 'classify':
                 if how == 'str':
                     mo = MosFile.from_string(text)
                 elif how == 'bytes':
-                    mo = MosFile.from_string(text.encode('utf-8'))
+                    mo = MosFile.from_string(text.encode(declared(text)))
                 else:
                     p = os.path.join(tmp, 'd%d.mos.xml' % k)
-                    with open(p, 'w', encoding='utf-8') as f:
-                        f.write(text)
+                    with open(p, 'wb') as f:
+                        f.write(text.encode(declared(text)))
                     mo = MosFile.from_file(p)
                     os.unlink(p)
                 row[how] = ['ok', type(mo).__name__, bool(mo.completed), str(mo)]
